@@ -171,8 +171,7 @@ CHECKS.update({
              "(C01 reference) as the best feature did in training, a fallback must return exactly that feature with "
              "its direction, and assign_confidence on the returned (scores, descs) must compete, order and compute "
              "q-values in the returned direction.",
-        note="feat_pass/best_feat/desc are read from the returned models (public attributes named by the property). "
-             "Known finding F06 (ascending direction ignored by assign_confidence) is reported as KNOWN-FINDING."),
+        note="feat_pass/best_feat/desc are read from the returned models (public attributes named by the property)."),
 })
 
 CHECKS.update({
